@@ -19,3 +19,5 @@ func TestC04(t *testing.T) { harness.Main(t, "C04", C04Workloads()) }
 func TestC09(t *testing.T) { harness.Main(t, "C09", C09Workloads()) }
 
 func TestC06(t *testing.T) { harness.Main(t, "C06", C06Workloads()) }
+
+func TestC07(t *testing.T) { harness.Main(t, "C07", C07Workloads()) }
